@@ -404,3 +404,16 @@ HARMLESS += [
   "old": "            elif preferred not in target_idx \\\n                    and d.indices_contain_equal_information:",
   "new": "            elif d.indices_contain_equal_information \\\n                    and preferred not in target_idx:"},
 ]
+
+_EO = "adcgen/eri_orbenergy.py"
+MUTANTS += [
+ {"id": "c13-des-sign", "prop": "C13", "file": _EO,
+  "old": "                ret[perms] = factor * -1  # P_pq Denom = -Denom -> -1",
+  "new": "                ret[perms] = factor  # P_pq Denom = -Denom -> -1"},
+ {"id": "c13-des-kwargs-second-branch", "prop": "C13", "file": _EO,
+  "old": "            eri_sym = self.eri.symmetry(**kwargs)\n",
+  "new": "            eri_sym = self.eri.symmetry()\n"},
+ {"id": "c13-des-changed-denominator-kept", "prop": "C13", "file": _EO,
+  "old": "            else:  # permutation changes the denominator\n                ret[perms] = None",
+  "new": "            else:  # permutation changes the denominator\n                ret[perms] = factor"},
+]
